@@ -110,6 +110,10 @@ func (pe *PolicyEngine) getPoliciesSelectingPod(peer k8s.Peer, direction netv1.P
 // isPeerNodeIP returns true if peer1 is an IP address of a node and peer2 is a pod on that node
 func isPeerNodeIP(peer1, peer2 k8s.Peer) bool {
 	if peer2.PeerType() == k8s.PodType && peer1.PeerType() == k8s.IPBlockType {
+		// HostIP comes from the input as is: it may be empty, malformed or an IPv6 address, which can not be parsed below
+		if parsedIP := net.ParseIP(peer2.GetPeerPod().HostIP); parsedIP == nil || parsedIP.To4() == nil {
+			return false
+		}
 		ip2, err := netset.IPBlockFromIPAddress(peer2.GetPeerPod().HostIP)
 		if err != nil {
 			return peer1.GetPeerIPBlock().Equal(ip2)
